@@ -57,3 +57,30 @@ package utils
 //@   props C01
 //@   modifies nothing
 //@   trusted "frame only: searches the DOM for a <base> element"
+
+// ---------------------------------------------------------------------------
+// C07: data: URI handling never panics (caller has checked the "data:" prefix)
+//@ func isHex
+//@   props C07
+//@   nopanic
+//@   ensures result == (('0' <= c && c <= '9') || ('a' <= c && c <= 'f') || ('A' <= c && c <= 'F'))
+//@ func unhex
+//@   props C07
+//@   nopanic
+//@   ensures '0' <= c && c <= '9' ==> result == c - '0'
+//@   ensures 'a' <= c && c <= 'f' ==> result == c - 'a' + 10
+//@   ensures 'A' <= c && c <= 'F' ==> result == c - 'A' + 10
+// SplitN(s, sep, 2) has two parts exactly when sep occurs in s (assumed)
+//@ extern strings.SplitN
+//@   modifies nothing
+//@   ensures len(sep) > 0 && n == 2 ==> len(result) >= 1 && len(result) <= 2 && (strings.Contains(s, sep) ==> len(result) == 2)
+//@   ensures fresh(result)
+
+//@ func parseDataURL
+//@   props C07
+//@   nopanic
+//@   requires len(url) >= 5
+//@   modifies anything
+//@   loop 1 invariant result.params != nil
+//@   unclaimed index@5 "strings.Split of the constant \"charset=US-ASCII\" on \"=\" has two parts"
+//@   unclaimed index@4 "strings.Split of the constant \"charset=US-ASCII\" on \"=\" has two parts"
